@@ -53,10 +53,14 @@ def _qderiv_actuator_passive_vel(
   actuator_forcerange: wp.array2d[wp.vec2],
   actuator_ctrllimited: wp.array[bool],
   actuator_ctrlrange: wp.array2d[wp.vec2],
+  actuator_acc0: wp.array2d[float],
+  actuator_lengthrange: wp.array2d[wp.vec2],
   # Data in:
   act_in: wp.array2d[float],
   ctrl_in: wp.array2d[float],
   act_dot_in: wp.array2d[float],
+  actuator_length_in: wp.array2d[float],
+  actuator_velocity_in: wp.array2d[float],
   actuator_force_in: wp.array2d[float],
   # In:
   dsbl_clampctrl: int,
@@ -72,6 +76,14 @@ def _qderiv_actuator_passive_vel(
 
   if actuator_gaintype[actid] == GainType.AFFINE:
     gain = actuator_gainprm[actuator_gainprm_id, actid][2]
+  elif actuator_gaintype[actid] == GainType.MUSCLE:
+    gain = util_misc.muscle_gain_vel(
+      actuator_length_in[worldid, actid],
+      actuator_velocity_in[worldid, actid],
+      actuator_lengthrange[worldid % actuator_lengthrange.shape[0], actid],
+      actuator_acc0[worldid % actuator_acc0.shape[0], actid],
+      actuator_gainprm[actuator_gainprm_id, actid],
+    )
   elif actuator_gaintype[actid] == GainType.DCMOTOR:
     gain = 0.0
     dynprm = actuator_dynprm[worldid % actuator_dynprm.shape[0], actid]
@@ -1159,9 +1171,13 @@ def deriv_smooth_vel(m: Model, d: Data, out: wp.array2d[float]):
           m.actuator_forcerange,
           m.actuator_ctrllimited,
           m.actuator_ctrlrange,
+          m.actuator_acc0,
+          m.actuator_lengthrange,
           d.act,
           d.ctrl,
           d.act_dot,
+          d.actuator_length,
+          d.actuator_velocity,
           d.actuator_force,
           m.opt.disableflags & DisableBit.CLAMPCTRL,
         ],
